@@ -88,9 +88,13 @@ def _asin(x):
 
 
 def _pow(a, b):
+    # `x ** 2` on C doubles is pow(x, 2.0), which the C compiler folds to x * x (no pow call is left in the
+    # extension modules); libm pow is not bit-identical to x * x, so mirror the folding
+    if b == 2:
+        return a * a
     try:
-        return a ** b
-    except (OverflowError, ZeroDivisionError):
+        return math.pow(a, b)
+    except (OverflowError, ValueError, ZeroDivisionError):
         return math.inf
 
 
